@@ -27,8 +27,7 @@ vars == <<all, metas, pending, w, dupIds>>
 
 Idle == [g |-> 0, rest |-> {}, cover |-> {}, dups |-> {}, st |-> "idle"]
 
-BlockSets(n) == { S \in SUBSET { [id |-> i, src |-> s, grp |-> g] : i \in 1..n, s \in SrcSets, g \in Groups } :
-                    \A i \in 1..n : Cardinality({ b \in S : b.id = i }) = 1 }
+BlockSets(n) == { { [id |-> i, src |-> f[i][1], grp |-> f[i][2]] : i \in 1..n } : f \in [1..n -> SrcSets \X Groups] }
 Init == /\ \E n \in 1..MaxBlocks : all \in BlockSets(n)
         /\ metas = { b.id : b \in all }
         /\ pending = { b.grp : b \in all }
